@@ -68,11 +68,20 @@ def run_one(args):
 _POOL = None
 
 
+def _close_pool():
+    if _POOL is not None:
+        _POOL.close()
+        _POOL.join()
+
+
 def pool(procs=14):
     global _POOL
     if _POOL is None:
         ctx = multiprocessing.get_context("fork")
         _POOL = ctx.Pool(procs)
+        if os.environ.get("VERIF_COV"):  # development aid: let workers exit normally so that coverage data is written
+            import atexit
+            atexit.register(_close_pool)
     return _POOL
 
 
